@@ -650,7 +650,9 @@ def aggregate(prop, tier, seed, results, wall, build_s, violations, notes):
                            "for history checks, scheduler decisions for schedule checks)",
             diagnostics=dict(counts=diags, names={k: sorted(v)[:20] for k, v in diag_names.items()},
                              note="observations that are not violations by themselves (DESIGN 2.4)"),
-            fault_fired=faults, probes=probes, probes_at_zero=zero_probes, operations=ops,
+            fault_fired=faults, fault_kinds_armed_but_never_reached=(
+                ["condvar_spurious_wakeup", "condvar_timeout", "lock_blocked"] if prop == "C14" and not any(k.startswith("condvar") for k in faults) else []),
+            probes=probes, probes_at_zero=zero_probes, operations=ops,
             runs_by_flavour=by_flavour, **extra_distinct,
             maxima={k: v for k, v in agg.items() if k.startswith("max_")},
             other={k: v for k, v in agg.items() if k[:2] not in ("f.", "p.", "d.") and not k.startswith("op.") and not k.startswith("max_")},
@@ -658,6 +660,7 @@ def aggregate(prop, tier, seed, results, wall, build_s, violations, notes):
                 real=["manif headers of /repo working tree", "Eigen 3.4", "tl::optional", "libstdc++ (guards, exceptions)",
                       "pthreads", "process memory"],
                 stub=["choice of which thread runs (seeded scheduler)", "guard wait path (blocked thread parked by simulator)",
+                      "mutex / once wait path and condition-variable wait, notify, time-out (simulated; none in the library on this tree)",
                       "rand() (seeded stream)"]),
             build_s=round(build_s, 1),
             notes=notes,
